@@ -76,6 +76,14 @@ chk(
     "DESIGN.md 4 C17",
 )
 
+chk(
+    "C06",
+    "differential against a reference renderer written from the statement + renderer-independent column/comma predicates, over finite format grids and seeded Hypothesis libraries x formats",
+    "Exploration: the output of writer.write / write_string(unparse_stack=[]) is compared byte for byte with a reference renderer on a finite grid (3 libraries x value_column 0..40,'auto' x 4 indents x comma x 3 separators x 2 failed-block comments) and on random libraries of every block kind (incl. plain / duplicate-key / duplicate-field / middleware-error failed blocks with multi-line raw) x random formats; independently of the renderer, on single-line values every field must be on one line as indent+key+pad+' = '+value with the value at column len(indent)+value_column iff the key is short enough, 'auto' must give one common minimal column over all entries, the comma rule must hold, no non-blank separator may follow the last block, format object and library must be unchanged, and the value_column setter must reject exactly negative ints and non-'auto' non-ints.",
+    "Trusted: pbt/props/C06.py ref_render and the column predicates. Failed blocks with raw=None and parsing_failed_comment strings with other placeholders are outside the generated domain.",
+    "DESIGN.md 4 C06",
+)
+
 ALL = ["C%02d" % i for i in range(1, 21)]
 NOT_YET = "check not built yet in this revision of /verif (see DESIGN.md section 4 for its design); not claimed"
 
